@@ -292,6 +292,7 @@ fn is_derived(ctx: &Ctx, id: &str) -> bool {
 }
 
 pub fn c02(ctx: &mut Ctx, acc: &mut Acc) -> i32 {
+    deep_nesting(ctx, acc, "C02");
     let n = ctx.n(300, 1500);
     let subjects: Vec<String> = ctx.my_subjects(|_| true).iter().map(|s| s.id().to_string()).filter(|id| is_derived(ctx, id)).collect();
     for id in subjects {
@@ -329,6 +330,50 @@ pub fn c02(ctx: &mut Ctx, acc: &mut Acc) -> i32 {
         }
     }
     0
+}
+
+/// Twelve levels of records with evolution headers (`Nest0` … `Nest11`), every level entered several times with data
+/// following in the same chunk: region and chunk-buffer stacks far deeper than any generated declaration reaches.
+pub fn deep_nesting(ctx: &mut Ctx, acc: &mut Acc, check: &str) {
+    if ctx.shard != 0 || ctx.only_fresh() {
+        return;
+    }
+    let Some(s) = ctx.reg.get("Nest0") else {
+        acc.inconclusive("deep nesting: subject Nest0 missing".to_string());
+        return;
+    };
+    let ty = s.ty();
+    let levels = 12usize;
+    fn tree(level: usize, levels: usize, rng: &mut refmodel::Rng, full: bool, counter: &mut u64) -> Val {
+        *counter += 1;
+        let head = Val::U((*counter % 251) as u128);
+        let tail = Val::U((0xA000_0000u64 + *counter) as u128);
+        if level + 1 == levels {
+            return Val::Rec(vec![head, tail]);
+        }
+        let k = if full { 2 } else { [1usize, 2, 2, 3][rng.below(4) as usize].min(if level < 6 { 2 } else { 3 }) };
+        let k = if !full && level >= 9 { k } else { k.min(2) };
+        let kids = (0..k).map(|_| tree(level + 1, levels, rng, full, counter)).collect();
+        Val::Rec(vec![head, Val::Seq(kids), tail])
+    }
+    for idx in 0..ctx.n(4, 12) {
+        let mut rng = ctx.rng_for(0xDEE9, "Nest0", idx);
+        let mut counter = idx * 1000;
+        let v = tree(0, levels, &mut rng, idx == 0, &mut counter);
+        let exp = expected(&ty, &v);
+        let Some((_x, bytes)) = encode_case(acc, s, &v) else {
+            acc.case(None);
+            continue;
+        };
+        acc.case(Some(sig(&[b"Nest0", &bytes])));
+        let a = check_decodes_to(ctx, acc, check, s, &bytes, &exp, "twelve levels of evolved records");
+        let b = check_emitted(acc, check, s, &bytes, &exp);
+        if a && b {
+            acc.count("deep_nesting_ok");
+            acc.max("deep_nesting_levels", levels as u64);
+            acc.max("deep_nesting_records", counter - idx * 1000);
+        }
+    }
 }
 
 pub fn c04(ctx: &mut Ctx, acc: &mut Acc) -> i32 {
